@@ -243,6 +243,7 @@ type Contract struct {
 	Flags    map[string]bool
 	Assumed  map[string]bool   // clause ids that are environment assumptions (not proved by implementations)
 	Derived  map[string]string // clause id -> lemma by which it follows from the other clauses
+	Uses     []string          // lemmas (proved separately) whose statements are assumed in this function's proof
 	File     string
 	Line     int
 }
@@ -614,6 +615,13 @@ func (p *parser) parseContract() *Contract {
 			k, _ := strconv.Atoi(n.s)
 			p.expect("invariant")
 			c.LoopInv[k] = append(c.LoopInv[k], p.parseClause(t, fmt.Sprintf("inv%d", len(c.LoopInv[k])+1)))
+		case p.accept("uses"):
+			// uses <lemma>: the lemma (discharged as its own obligation) may be used in this function's proof
+			ln := p.ident()
+			for p.accept("-") {
+				ln += "-" + p.ident()
+			}
+			c.Uses = append(c.Uses, ln)
 		case p.accept("derived"):
 			// derived <clause id> by <lemma>: the clause follows from the other clauses by the lemma;
 			// implementations need not prove it separately
